@@ -134,15 +134,47 @@ def build_record(rc, obs):
     raise ValueError(k)
 
 
+NEUTRAL = [["--style=consise"], ["--utf8-strings"], ["--style=one-line", "--utf8-strings"], ["--regular-expression-cache-size=0"],
+           ["--regular-expression-cache-size=1"], ["--regular-expression-cache-size=64"], ["--on-error=stderr"], ["--on-error=stdout"], ["--on-error=panic"]]
+
+
+def neutral(rnd):
+    """Options and ways of delivering the input that do not change what a pipeline computes on a clean input: JSON style (rows stay on one
+    line), string escaping, regex cache size, the error policy (there is no error), the input as a file instead of standard input, short
+    reads.  Returns (extra argv, a function that turns a run into its delivered form)."""
+    if rnd.random() < 0.6:
+        return [], (lambda run: run)
+    extra = [a for g in rnd.sample(NEUTRAL, rnd.choice([1, 1, 2])) for a in g]
+    # at most one of a kind
+    seen, out = set(), []
+    for a in extra:
+        k = a.split("=")[0]
+        if k not in seen:
+            seen.add(k)
+            out.append(a)
+    how = rnd.random()
+    if how < 0.25:
+        deliver = lambda run: dict(run, argv=["@FILE0"] + run["argv"], files=[run["stdin"]], stdin="")
+    elif how < 0.5:
+        chunks = [rnd.choice([1, 2, 3, 7, 64, 4096]) for _ in range(5)]
+        deliver = lambda run: dict(run, chunks=chunks)
+    else:
+        deliver = lambda run: run
+    return out, deliver
+
+
 def add_ref(cs, cfg, rows, rnd, expect=None, spell=False):
+    extra, deliver = neutral(rnd)
     cs.add({"kind": "ref", "cfg": cfg, "input": [enc(x) for x in rows], "expect": expect,
-            "runs": [{"argv": PL.cfg_argv(cfg, rnd), "stdin": hexs(PL.input_bytes(rows, rnd if spell else None))}]})
+            "runs": [deliver({"argv": PL.cfg_argv(cfg, rnd, extra), "stdin": hexs(PL.input_bytes(rows, rnd if spell else None))})]})
 
 
 def add_rel(cs, rel, cfg, base_cfg, rows, rnd, extra_argv=None, json_out=True):
     data = hexs(PL.input_bytes(rows))
+    extra, deliver = neutral(rnd) if json_out else ([], (lambda run: run))
+    extra = list(extra_argv or []) + extra
     cs.add({"kind": "rel", "rel": rel, "cfg": cfg, "input": [enc(x) for x in rows], "json": json_out,
-            "runs": [{"argv": PL.cfg_argv(cfg, rnd, extra_argv), "stdin": data}, {"argv": PL.cfg_argv(base_cfg, rnd, extra_argv), "stdin": data}]})
+            "runs": [deliver({"argv": PL.cfg_argv(cfg, rnd, extra), "stdin": data}), deliver({"argv": PL.cfg_argv(base_cfg, rnd, extra), "stdin": data})]})
 
 
 def run_and_validate(chk, jvh, cs, tag, nproc):
@@ -176,7 +208,7 @@ def run_and_validate(chk, jvh, cs, tag, nproc):
         rc = cs.recipes[case]
         o = per[case]
         first = rc["runs"][0]
-        stdin = bytes.fromhex(first["stdin"])
+        stdin = bytes.fromhex(first["files"][0] if first.get("files") else first["stdin"])
         rep = {"recipe": PL.strip_private(rc), "stdin_text": stdin.decode("utf-8", "replace")[:2000],
                "observed": [{"res": x["res"], "msg": x.get("msg", ""), "stdout": bytes.fromhex(x["out"]).decode("utf-8", "replace")[:2000],
                              "pulled": x.get("pulled")} for x in o], "flag": what}
